@@ -12,6 +12,10 @@ CONSTANTS
   AtomicNew = FALSE
   AtomicLine = TRUE
   ObjCid = TRUE
+  Bufs = {}
+  Cap = 0
+  Wins = {}
+  OwnStorage = TRUE
   Sink <- KeepAll
 INVARIANTS Unique
 CHECK_DEADLOCK FALSE
